@@ -520,6 +520,29 @@ impl ServerProc {
             std::thread::sleep(Duration::from_millis(2));
         }
     }
+    /// Thread id of the thread with this name (from /proc/<pid>/task/*/comm), if any.
+    pub fn tid_of(&self, name: &str) -> Option<i32> {
+        let rd = std::fs::read_dir(format!("/proc/{}/task", self.pid)).ok()?;
+        let mut tids: Vec<i32> = vec![];
+        for e in rd.flatten() {
+            if let Ok(c) = std::fs::read_to_string(e.path().join("comm")) {
+                if c.trim() == name {
+                    if let Ok(t) = e.file_name().to_string_lossy().parse::<i32>() {
+                        tids.push(t);
+                    }
+                }
+            }
+        }
+        // (a helper thread a worker starts inherits its name: the worker itself is the older one)
+        tids.sort();
+        tids.first().copied()
+    }
+    /// Deliver a signal to ONE thread of the server (tgkill).
+    pub fn signal_thread(&self, tid: i32, sig: i32) {
+        unsafe {
+            libc::syscall(libc::SYS_tgkill, self.pid as libc::c_long, tid as libc::c_long, sig as libc::c_long);
+        }
+    }
     pub fn thread_names(&self) -> Vec<String> {
         let mut v = vec![];
         if let Ok(rd) = std::fs::read_dir(format!("/proc/{}/task", self.pid)) {
